@@ -90,14 +90,15 @@ def isNilN : Node → Bool
   | .nil => true
   | _ => false
 
-/-- entering the node `get key` returned -/
-def enter (cr : Bool) (key : Bytes) (next : Node) : Outcome Node :=
-  if key = [] ∧ cr then .err .invalid else intoContainer next
+/-- entering the node `get key` returned (the `cr` flag and the key are no longer consulted:
+an empty token is an ordinary member name; the arguments are kept for the callers) -/
+def enter (_cr : Bool) (_key : Bytes) (next : Node) : Outcome Node :=
+  intoContainer next
 
 /-- what the walk does with the result of the walk below the child `get key` returned -/
 def wrapWalk {α} (o : Opts) (con : Node) (key : Bytes) : Walk α → Walk α
-  | .done child' a => if key = [] then .doneSelf child' a else .done (putChild o con key child') a
-  | .notFound child' => if key = [] then .notFoundSelf child' else .notFound (putChild o con key child')
+  | .done child' a => .done (putChild o con key child') a
+  | .notFound child' => .notFound (putChild o con key child')
   | .fail e => .fail e
   | .panic => .panic
   | .doneSelf s a => .doneSelf s a
@@ -133,15 +134,30 @@ theorem walk_cons {α} (o : Opts) (act : Node → Node → Outcome (Node × α))
     | nil => rfl
     | _ =>
       simp only [isNilN, enter, Bool.false_eq_true, if_false]
-      generalize (if decodeToken part = [] ∧ cr = true then Outcome.err Err.invalid else intoContainer _) = x
+      generalize intoContainer _ = x
       cases x with
       | panic => rfl
       | err e => rfl
       | ok child =>
         simp only []
         generalize walk o act false Node.nil child rest = w
-        by_cases hk : decodeToken part = [] <;>
-          (cases w <;> simp [wrapWalk, hk])
+        cases w <;> simp [wrapWalk]
+
+/-! ### `copy`, first step -/
+
+/-- the first step of a copy: `from = ""` is the whole document as it is now, taken without a
+walk (a null root cannot be copied); any other `from` is looked up by `copySource` -/
+def copyFirst (o : Opts) (r : Root) (frm : Bytes) : Walk Node :=
+  if frm = [] then (if isNullN r.con then .fail .invalid else .done r.con r.con)
+  else copySource o r frm
+
+theorem copyFirst_nil (o : Opts) (r : Root) :
+    copyFirst o r [] = if isNullN r.con then .fail .invalid else .done r.con r.con := by
+  simp [copyFirst]
+
+theorem copyFirst_ne (o : Opts) (r : Root) {frm : Bytes} (h : frm ≠ []) :
+    copyFirst o r frm = copySource o r frm := by
+  simp [copyFirst, h]
 
 /-! ### `ensure`, one step -/
 
@@ -172,7 +188,7 @@ def ensureAdd (o : Opts) (con1 : Node) (key : Bytes) (self : Node) :
 
 def ensurePut (o : Opts) (con : Node) (key : Bytes) (self : Node) :
     Outcome (Node × Node) → Outcome (Node × Node)
-  | .ok (child', _) => if key = [] then .ok (con, child') else .ok (putChild o con key child', self)
+  | .ok (child', _) => .ok (putChild o con key child', self)
   | .err e => .err e
   | .panic => .panic
 
@@ -247,7 +263,7 @@ theorem ensure_cons2 (o : Opts) (cr : Bool) (self con : Node) (part nxt : Bytes)
         | panic => rfl
     | _ =>
       simp only []
-      generalize (if decodeToken part = [] ∧ cr = true then Outcome.err Err.invalid else intoContainer _) = x
+      generalize intoContainer _ = x
       cases x with
       | panic => rfl
       | err e => rfl
